@@ -11,7 +11,9 @@ import (
 	"encoding/json"
 	"fmt"
 	"os"
+	"strings"
 	"testing"
+	"time"
 
 	"verif/harness/gobatch"
 	"verif/harness/vlib"
@@ -27,14 +29,22 @@ func TestMain(m *testing.M) {
 		"non-trivial when its trace contains >= 2 calls of counting functions inside one multi-assignment or op= statement (order and single evaluation observable) or a wrapped/panicking operation; distinct = distinct cell keys / program texts")
 	rec.Assume("layer 1 oracle: gc-compiled native operators of the harness (type parameters), go/types for validity; harness module runs with godebug default=go1.18 as gomacro's own module")
 	rec.Assume("layer 2 oracle: gc toolchain at language level go1.18, traces formatted by the same compiled recorder on both sides")
+	// generated programs contain no loop and no recursion: termination holds by construction,
+	// so the engine's wall-clock safety net is only ever hit by machine overload
+	// (observed: a three-statement replay "hung" for 40 s at load average 1000).
+	gobatch.EvalTimeout = 10 * time.Minute
 	os.Exit(vlib.Main(m, rec))
 }
 
 // replay: layer-1 cells are JSON objects {"layer":"cell",...}; everything else is a gobatch program.
 func replay(content []byte) error {
-	if p, ok := gobatch.ParseReplay(content); ok {
-		_ = p
-		return gobatch.Replayer(knownSeq)(content)
+	if _, ok := gobatch.ParseReplay(content); ok {
+		err := gobatch.Replayer(knownSeq)(content)
+		if err != nil && strings.Contains(err.Error(), `gomacro error: "hang (`) {
+			// loop-free program: a timeout of the safety net is infrastructure, never a verdict
+			return vlib.Inconclusive("interpreter evaluation hit the wall-clock safety net (machine overload)")
+		}
+		return err
 	}
 	var rc replayCell
 	if err := json.Unmarshal(content, &rc); err != nil || rc.Layer != "cell" {
